@@ -16,6 +16,10 @@ example : Gen.Rtmp.chunkIDProtocolControl = 2 := by decide
 example : (Gen.Rtmp.MessageTypeSetChunkSize, Gen.Rtmp.MessageTypeAbort, Gen.Rtmp.MessageTypeUserControl,
            Gen.Rtmp.MessageTypeWindowAcknowledgementSize) = (1, 2, 4, 5) := by decide
 example : (Gen.Rtmp.EventTypeSetBufferLength, Gen.Rtmp.EventTypeFmsEvent0) = (3, 26) := by decide
+/-- gate: the chunk size (and window) the reader applies to the peer's stream is state of `readChunk` / `readMessage`
+only — the model's `Reader`; the exported message -> packet helper `DecodeMessage`, which applications call on messages
+they hold at any later time, assigns nothing there (in the model it is a pure function of the message). -/
+example : Gen.Rtmp.decodeMessageLeavesReaderSettings = true := by decide
 
 /-! ### basic header -/
 
